@@ -1,4 +1,5 @@
 SPEC = dict(
+    aux_kinds=['dec reader ', 'dec fuzz ', 'enc fuzz '],   # streams that call unexported helpers directly; skipped (UNAVAILABLE) when those are renamed
     harness="verif_c12",
     model="C12",
     rule="all six Go natural decoders/encoders (types.DecodeUint, reader DecodeLength, utilities, PVM ReadUintVariable, "
